@@ -151,7 +151,7 @@ class Prop:
     rule = ("LogStream: insertion sequences over all operator<< overloads with boundary-dense values (type limits, every "
             "power of ten and two +-2, random) incl. sequences that run past the 4000-byte buffer and the 4000000-byte "
             "FixedBuffer; Logger: every constructor and LOG_* macro x level x configured level x source path x zone x "
-            "zone changes inside and outside the second the thread has cached x thread kind (main / muduo::Thread / forked child / pthread_create'd thread whose first muduo call is the log "
+            "zone changes inside and outside the second the thread has cached x thread kind (main / a fresh muduo::Thread / one muduo::Thread that lives for the whole run and keeps what it cached while the main thread changes zone and level / forked child / pthread_create'd thread whose first muduo call is the log "
             "statement / pthread_create'd thread after CurrentThread::tid()) under a scripted and the real clock; a "
             "dedicated thread-kind section (every kind, constructors and macros) runs in a build with asserts AND an "
             "NDEBUG build in both tiers; formatSI/formatIEC: "
